@@ -527,14 +527,10 @@ impl Store {
 
     #[tracing::instrument(skip(self))]
     pub fn insert_frame(&self, frame: &Frame) -> Result<(), crate::error::Error> {
-        let encoded: Vec<u8> = serde_json::to_vec(&frame).unwrap();
-
         // Never store what we could not read back: e.g. meta nested right at serde_json's
         // depth limit serializes, but wrapped in the frame it no longer parses, and
         // deserialize_frame would panic on every later read of it.
-        if let Err(e) = serde_json::from_slice::<Frame>(&encoded) {
-            return Err(format!("Frame does not survive serialization: {}", e).into());
-        }
+        let encoded = check_reads_back(frame)?;
 
         // Get the index topic key
         let topic_key = idx_topic_key_from_frame(frame)?;
@@ -595,6 +591,11 @@ impl Store {
 
         // Check for null byte in topic (in case we're not storing the frame)
         idx_topic_key_from_frame(frame)?;
+
+        // A frame that is going to be stored has to read back (see insert_frame)
+        if frame.ttl != Some(TTL::Ephemeral) {
+            check_reads_back(frame)?;
+        }
         Ok(())
     }
 
@@ -715,6 +716,15 @@ impl Store {
         contexts.sort();
         (stream, idx_topic, idx_context, contexts)
     }
+}
+
+/// Encode a frame and make sure the encoding parses again.
+fn check_reads_back(frame: &Frame) -> Result<Vec<u8>, crate::error::Error> {
+    let encoded: Vec<u8> = serde_json::to_vec(frame).unwrap();
+    if let Err(e) = serde_json::from_slice::<Frame>(&encoded) {
+        return Err(format!("Frame does not survive serialization: {}", e).into());
+    }
+    Ok(encoded)
 }
 
 fn spawn_gc_worker(mut gc_rx: UnboundedReceiver<GCTask>, store: Store) {
